@@ -1077,3 +1077,214 @@ def provider_1d_envs(tier=None):
     for lab in ("operator-on-ket-sites-in-order-given", "environments-complete-the-network", "normalised-once-dict-or-sum"):
         ob.run(T1, "MatrixProductState.compute_local_expectation_via_envs", lab, "fdx", _ob_envs(lab))
     return ob.out
+
+
+# ------------------------------------------------------------------ TensorNetworkGenVector.partial_trace (compressed route)
+from fractions import Fraction
+
+
+class Lin:
+    """element of the free *-algebra over matrix atoms: a rational combination of words (base, transposed?, conjugated?)
+    -- rho, rho^T, conj(rho), rho^H = conj(rho^T) are four DIFFERENT words -- divided by a tuple of traces"""
+
+    def __init__(self, terms, denoms=()):
+        self.terms = {a: c for a, c in terms.items() if c != 0}
+        self.denoms = tuple(denoms)
+
+    @classmethod
+    def atom(cls, base):
+        return cls({(base, 0, 0): Fraction(1)})
+
+    def _map(self, dt, dc):
+        return Lin({(b, t ^ dt, c ^ dc): v for (b, t, c), v in self.terms.items()}, self.denoms)
+
+    T = property(lambda s: s._map(1, 0))
+    H = property(lambda s: s._map(1, 1))
+
+    def conj(self):
+        return self._map(0, 1)
+
+    def conjugate(self):
+        return self._map(0, 1)
+
+    def transpose(self, *a):
+        return self._map(1, 0)
+
+    def key(self):
+        return (frozenset(self.terms.items()), self.denoms)
+
+    def __add__(self, o):
+        assert isinstance(o, Lin) and o.denoms == self.denoms
+        out = dict(self.terms)
+        for a, c in o.terms.items():
+            out[a] = out.get(a, 0) + c
+        return Lin(out, self.denoms)
+
+    def __sub__(self, o):
+        return self + o * -1
+
+    def __mul__(self, x):
+        return Lin({a: c * Fraction(x) for a, c in self.terms.items()}, self.denoms)
+
+    __rmul__ = __mul__
+
+    def __truediv__(self, x):
+        if isinstance(x, Tr):
+            return Lin(self.terms, self.denoms + (x.of,))
+        return Lin({a: c / Fraction(x) for a, c in self.terms.items()}, self.denoms)
+
+    def __repr__(self):
+        w = " + ".join(f"{c}*{b}{'^T' * t}{'*' * cj}" for (b, t, cj), c in sorted(self.terms.items(), key=repr))
+        return f"({w})" + "".join(f" / tr{sorted(dict(d[0]).items(), key=repr)}" for d in self.denoms)
+
+
+class Tr:
+    def __init__(self, x):
+        self.of = x.key()
+
+
+def _star_do(name, x, *a, **k):
+    if name == "trace":
+        return Tr(x)
+    return dict(transpose=lambda: x.T, conj=lambda: x.conj(), conjugate=lambda: x.conj(), dag=lambda: x.H)[name]()
+
+
+class PTN(Rec):
+    """network stand-in with the in-place operators partial_trace uses"""
+
+    def __ixor__(self, tag):
+        self._log.append((self, "__ixor__", (tag,), {}))
+        return self
+
+    def __ior__(self, other):
+        self._log.append((self, "__ior__", (other,), {}))
+        return self
+
+
+def _pt_world(log):
+    dense = lambda s, rows, cols, **k: Lin.atom(("dense", tuple(rows), tuple(cols)))     # noqa: E731
+    t_rho = PTN("t_rho", log, {"to_dense": dense})
+    part, red = PTN("tn-part", log, {"contract_compressed": t_rho, "to_dense": dense}), PTN("tn-reduced", log)
+    tn = PTN("rho-tn", log, {"site_tag": lambda s, x: f"I{x}", "partition": (part, red), "contract_compressed": t_rho,
+                             "to_dense": dense}, tag_map={"I0": 1, "I1": 1, "I2": 1})
+    k = PTN("copy", log, {"make_reduced_density_matrix": tn})
+    me = PTN("self", log, {"site_ind": lambda s, x: f"k{x}", "site_tag": lambda s, x: f"I{x}", "copy": k,
+                           "gen_site_coos": lambda s: iter((0, 1, 2, 3))})
+    return me, k, tn, part, red, t_rho
+
+
+_PT_KEEPS = [p for r in (1, 2) for c in itertools.combinations(range(3), r) for p in itertools.permutations(c)]
+
+
+def _ob_pt(which):
+    def go():
+        hr = []
+
+        def handle(rehearse, tn, optimize, **kw):
+            hr.append((rehearse, tn, optimize, kw))
+            return ("rehearsal", rehearse)
+        f = real(AG, f"{_GV}.partial_trace", dict(dag=lambda x: x.H, do=_star_do, _handle_rehearse=handle))
+        dom = itertools.product(_PT_KEEPS, ("auto", True, False), (True, False, "all"), (True, False), (False, True),
+                                ("contract_compressed", "contract_around", "other"), (False, True, "tn", "tree"))
+        for keep, symmetrized, flatten, normalized, reduce, method, rehearse in dom:
+            if which != "rehearse-returns-early" and rehearse not in (False,):
+                continue
+            del hr[:]
+            log = []
+            me, k, tn, part, red, t_rho = _pt_world(log)
+            mb, opt, extra = Tok("max_bond"), Tok("optimize"), dict(extra_opt=Tok("extra"))
+            try:
+                got = f(me, keep, mb, opt, flatten=flatten, reduce=reduce, normalized=normalized, symmetrized=symmetrized,
+                        rehearse=rehearse, method=method, **extra)
+            except ValueError:
+                got = ValueError
+            inp = dict(keep=keep, symmetrized=symmetrized, flatten=flatten, normalized=normalized, reduce=reduce,
+                       method=method, rehearse=rehearse, got=got, log=[c[:3] for c in log])
+            kix, bix = tuple(f"k{s}" for s in keep), tuple(f"_bra{s}" for s in keep)
+            names = [c[1] for c in log]
+            by = {}
+            for c in log:
+                by.setdefault(c[1], []).append(c)
+            if method == "other":
+                if got is not ValueError or any(n in names for n in ("to_dense", "contract_compressed", "contract_around_")):
+                    return inp
+                continue
+            if got is ValueError:
+                return inp
+            if which == "rehearse-returns-early":
+                if not rehearse:
+                    continue
+                oi = None if (reduce and method == "contract_compressed") else kix + bix
+                want_tn = part if (reduce and method == "contract_compressed") else tn
+                if got != ("rehearsal", rehearse) or hr != [(rehearse, want_tn, opt, dict(output_inds=oi))]:
+                    return inp
+                if "to_dense" in names or "contract_compressed" in names:
+                    return inp
+                continue
+            rho = Lin.atom(("dense", kix, bix))
+            sym = (not flatten) if symmetrized == "auto" else symmetrized
+            num = (rho + rho.H) / 2 if sym else rho
+            if which == "hermitian-part-iff-resolved-symmetrized":
+                # rho, or (rho + rho^H)/2 with rho^H = conj(rho^T): NOT the transpose, NOT the conjugate
+                if not isinstance(got, Lin) or got.terms != num.terms:
+                    return dict(inp, want=num, resolved_symmetrized=sym)
+            elif which == "normalised-exactly-once":
+                if not isinstance(got, Lin) or got.denoms != ((num.key(),) if normalized else ()):
+                    return dict(inp, want_denominators=(num.key(),) if normalized else ())
+            elif which == "rows-ket-cols-bra-in-keep-order":
+                m = by["make_reduced_density_matrix"]
+                if len(m) != 1 or m[0][0] is not k or tuple(m[0][2][0]) != tuple(keep):
+                    return inp
+                bid = m[0][3].get("bra_ind_id")
+                if bid is None or tuple(bid.format(s) for s in keep) != bix:
+                    return inp
+                td = by["to_dense"]
+                if len(td) != 1 or tuple(td[0][2][0]) != kix or tuple(td[0][2][1]) != bix:
+                    return inp
+                if not isinstance(got, Lin) or {a[0] for a in got.terms} != {("dense", kix, bix)}:
+                    return inp
+            else:   # options-reach-route-by-method-table
+                want_x = [f"I{s}" for s in (0, 1, 2) if (s not in keep) or flatten == "all"] if flatten else []
+                if [c[2][0] for c in by.get("__ixor__", [])] != want_x or any(c[0] is not tn for c in by.get("__ixor__", [])):
+                    return dict(inp, want_contracted_sites=want_x)
+                r = by.get("reduce_inds_onto_bond", [])
+                if reduce:
+                    if len(r) != 1 or r[0][0] is not k or r[0][2] != kix or r[0][3] != dict(tags="__BOND__", drop_tags=True):
+                        return inp
+                elif r:
+                    return inp
+                if len(by.get("fuse_multibonds_", [])) != 1:
+                    return inp
+                td = by["to_dense"][0]
+                if method == "contract_compressed":
+                    cc = by.get("contract_compressed", [])
+                    src = part if reduce else tn
+                    oi = None if reduce else kix + bix
+                    if len(cc) != 1 or cc[0][0] is not src or cc[0][2] != (opt,) or cc[0][3] != dict(max_bond=mb, output_inds=oi, **extra):
+                        return inp
+                    if "contract_around_" in names or td[0] is not t_rho or td[3]:
+                        return inp
+                    io = by.get("__ior__", [])
+                    if (reduce and (len(io) != 1 or io[0][0] is not t_rho or io[0][2] != (red,))) or (not reduce and io):
+                        return inp
+                    if reduce and by["partition"][0][2:] != (("__BOND__",), dict(inplace=True)):
+                        return inp
+                else:
+                    ca = by.get("contract_around_", [])
+                    if len(ca) != 1 or ca[0][0] is not tn or tuple(ca[0][2][0]) != tuple(f"I{s}" for s in keep) \
+                            or ca[0][2][1:] != ("any",) or ca[0][3] != dict(max_bond=mb, **extra):
+                        return inp
+                    if "contract_compressed" in names or td[0] is not tn or td[3] != dict(optimize=opt):
+                        return inp
+    return go
+
+
+_PT_LABELS = ("hermitian-part-iff-resolved-symmetrized", "normalised-exactly-once", "rows-ket-cols-bra-in-keep-order",
+              "options-reach-route-by-method-table", "rehearse-returns-early")
+
+
+def provider_pt(tier=None):
+    ob = _Obs()
+    for lab in _PT_LABELS:
+        ob.run(AG, f"{_GV}.partial_trace", lab, "fdx", _ob_pt(lab))
+    return ob.out
